@@ -53,6 +53,17 @@ pub const ERR_B: u64 = 8;
 
 pub const TIME_LIMIT_S: f64 = 10.0;
 
+/// user + system CPU time consumed by the calling thread, from /proc/thread-self/stat
+/// (fields 14 and 15, in clock ticks of 1/100 s on Linux)
+pub fn thread_cpu_secs() -> Option<f64> {
+    let st = std::fs::read_to_string("/proc/thread-self/stat").ok()?;
+    let rest = &st[st.rfind(')')? + 2..];
+    let f: Vec<&str> = rest.split(' ').collect();
+    let ut: f64 = f.get(11)?.parse().ok()?;
+    let stt: f64 = f.get(12)?.parse().ok()?;
+    Some((ut + stt) / 100.0)
+}
+
 pub fn c01_check(src: &str, oc: &Outcome, local: Option<&mut Local>, out: &mut Vec<String>) {
     match oc {
         Outcome::Panic(m) => out.push(format!("panic:{m}")),
@@ -98,17 +109,23 @@ pub fn c01_check(src: &str, oc: &Outcome, local: Option<&mut Local>, out: &mut V
 /// Run the oracle of `prop` on one input; returns signatures of failed clauses.
 /// `None` = the property is not observable on this input (no result returned: C01's business).
 pub fn check_one(prop: &str, src: &str, local: Option<&mut Local>) -> Option<(Vec<String>, Option<LexResult>)> {
-    let t0 = std::time::Instant::now();
+    // CPU time of this thread (insensitive to how many other checks share the machine); the
+    // clock is read for long inputs only
+    let long = src.len() >= 16_384;
+    let c0 = if long { thread_cpu_secs() } else { None };
     let oc = run_lexer(src);
-    let secs = t0.elapsed().as_secs_f64();
+    let secs = match (c0, if long { thread_cpu_secs() } else { None }) {
+        (Some(a), Some(b)) => b - a,
+        _ => 0.0,
+    };
     let mut out = Vec::new();
     if prop == "C01" {
         // "the amount of work stays linear": scanner-internal loops are invisible to the iteration
-        // counter, so for long inputs the wall time of the call is bounded as well. The bound is
+        // counter, so for long inputs the CPU time of the call is bounded as well. The bound is
         // two orders of magnitude above what the slowest input of the scale family needs on a
         // loaded machine (< 0.1 s per 100 KB); it is a measurement, not an enumeration.
         if src.len() >= 16_384 && secs > TIME_LIMIT_S {
-            out.push(format!("nonlinear.time:more-than-{TIME_LIMIT_S}s-for-less-than-1MB"));
+            out.push(format!("nonlinear.time:more-than-{TIME_LIMIT_S}s-cpu-for-less-than-4MB"));
         }
         c01_check(src, &oc, local, &mut out);
         return Some((out, match oc { Outcome::Ok(r) => Some(r), _ => None }));
